@@ -109,6 +109,15 @@ func Tok(name string) string {
 	return v
 }
 
+// TokN is an arbitrary string of exactly n bytes.
+func TokN(name string, n int) string {
+	v, _ := val("s_", name)
+	for len(v) < n {
+		v += "x"
+	}
+	return v[:n]
+}
+
 // Bytes is a string of n arbitrary bytes.
 func Bytes(name string, n int) string {
 	b := make([]byte, n)
